@@ -67,14 +67,14 @@ MUTANTS = [
      "        elif msg_type == cd.MT_DISCONNECT:\n            self.disconnect_module(src_module)",
      "        elif msg_type == cd.MT_DISCONNECT:\n            for _t in src_module.subs:\n                self.subscriptions[_t].discard(src_module)\n            src_module.subs.clear()"),
     ("c07_keep_unconnected_in_table", "C07", M,
-     "        self.send_client_close(module)\n        del self.modules[module.conn]",
-     "        self.send_client_close(module)\n        if module.connected or module.mod_id:\n            del self.modules[module.conn]"),
+     "        module.close()\n        del self.modules[module.conn]\n        return True",
+     "        module.close()\n        if module.connected or module.mod_id:\n            del self.modules[module.conn]\n        return True"),
     ("c07_forget_subscriptions", "C07", M,
      "        for msg_type in module.subs:\n            self.subscriptions[msg_type].discard(module)\n\n        # Discard from logger",
      "        # Discard from logger"),
     ("c07_client_closed_twice", "C07", M,
-     "        self.send_client_close(module)\n        del self.modules[module.conn]",
-     "        self.send_client_close(module)\n        if module.is_logger:\n            self.send_client_close(module)\n        del self.modules[module.conn]"),
+     "        if self.unregister_module(module):\n            self.send_client_close(module)",
+     "        if self.unregister_module(module):\n            self.send_client_close(module)\n            if module.is_logger:\n                self.send_client_close(module)"),
     ("c07_no_close_notice_on_short_read", "C07", M,
      "        if nbytes != self.header_size:\n            mod = self.modules[sock]\n            self.remove_module(mod)",
      "        if nbytes != self.header_size:\n            mod = self.modules[sock]\n            for _t in mod.subs:\n                self.subscriptions[_t].discard(mod)\n            self.logger_modules.discard(mod)\n            mod.close()\n            del self.modules[sock]"),
@@ -189,7 +189,9 @@ MUTANTS = [
      "                for i, (mt, count) in enumerate(chunk):\n                    data.msg_type[i] = mt\n                    data.msg_count[i] = count\n",
      "                for i, (mt, count) in enumerate(chunk):\n                    data.msg_type[i] = mt\n                    data.msg_count[i] = count\n                    if i == 0 and len(chunk) > 1:\n                        self.send_message(data)\n"),
     ("rev_double_removal_guard", "C03", M,
-     "        if self.modules.get(module.conn) is not module:\n            return\n", ""),
+     "        if self.modules.get(module.conn) is not module:\n            return False\n", ""),
+    ("rev_4928b9e_failures_handled_recursively", "C03", M,
+     "        if self._handling_failed_writes:\n            return\n", ""),
     ("c03_size_check_off_by_one", "C03", M,
      "if data_size < 0 or data_size > len(self.data_buffer):", "if data_size < -1 or data_size > len(self.data_buffer):"),
 ]
